@@ -156,6 +156,18 @@ var c08Layout = Register(Prop[c08Case]{
 	Gen: func(t *rapid.T) c08Case {
 		f := genFlowCase(t, scriptOpts{maxNodes: 4, maxDepth: 4, maxBody: 4, tracking: true})
 		c := c08Case{Script: f.Script, Vars: f.Vars, Layout: genLayout(t)}
+		if rapid.IntRange(0, 5).Draw(t, "align") == 0 {
+			// one statement with multi-byte text in every file, moved across a block boundary by a comment line in front of it
+			c.Layout.AlignBlock = rapid.SampledFrom([]int{512, 4096, 4096, 8192, 32768, 32768, 65536, 1 << 20, 4 << 20}).Draw(t, "block")
+			c.Layout.AlignSplit = rapid.IntRange(0, 1).Draw(t, "split")
+			c.Layout.LongNoise = 0
+			for _, file := range c.Script.Files {
+				n := file[rapid.IntRange(0, len(file)-1).Draw(t, "node")]
+				at := rapid.IntRange(0, len(n.Body)).Draw(t, "at")
+				stmt := &Stmt{K: "line", Text: []TextPart{{S: "Die Tür öffnet sich 日本語 "}, {E: varRef("k1")}}, Tags: []string{"geräusch"}}
+				n.Body = append(n.Body[:at:at], append([]*Stmt{stmt}, n.Body[at:]...)...)
+			}
+		}
 		for i := 0; i < 2; i++ {
 			c.Choices = append(c.Choices, genChoices(t))
 		}
